@@ -155,8 +155,10 @@ theorem teardown_moves (s : Sess) (t : Nat) : Moves t s (teardown s t).1 := by
     · exact Moves.refl s
     · simp only []
       split
-      · exact collectProducts_moves s t
-      · split <;> exact collectProducts_moves s t
+      · exact Moves.refl s
+      · split
+        · exact collectProducts_moves s t
+        · split <;> exact collectProducts_moves s t
 
 theorem setupChain_moves (s : Sess) (t : Nat) : Moves t s (setupChain t Generated.setupOrder s).1 := by
   rw [setupChain_eval]
@@ -766,8 +768,10 @@ theorem teardown_sameObs (s : Sess) (t : Nat) : SameObs s (teardown s t).1 := by
     · exact SameObs.refl s
     · simp only []
       split
-      · exact collectProducts_sameObs s t
-      · split <;> exact collectProducts_sameObs s t
+      · exact SameObs.refl s
+      · split
+        · exact collectProducts_sameObs s t
+        · split <;> exact collectProducts_sameObs s t
 
 theorem genExecute_obs (Y : YieldFn) (s : Sess) (tk : PTask) :
     (genExecute Y s tk).1.w = s.w ∧ (genExecute Y s tk).1.log = s.log ++ [tk.id] ∧
@@ -1685,8 +1689,10 @@ theorem teardown_twp (s : Sess) (t : Nat) : TwpExt t s (teardown s t).1 := by
     · exact TwpExt.refl t s
     · simp only []
       split
-      · exact collectProducts_twp s t
-      · split <;> exact collectProducts_twp s t
+      · exact TwpExt.refl t s
+      · split
+        · exact collectProducts_twp s t
+        · split <;> exact collectProducts_twp s t
 
 theorem protocol_twp (Y : YieldFn) (F : BodyFn) (s : Sess) (t : Nat) : TwpExt t s (protocol Y F s t) := by
   unfold protocol
@@ -1828,12 +1834,15 @@ theorem protocol_plain (Y : YieldFn) (F : BodyFn) (s : Sess) (k : Nat) (K : PTas
         unfold teardown
         rw [hf2]
         simp only [hng, Bool.false_eq_true, if_false]
-        rw [hcp (afterBody F s K) hf2 rfl, hf2]
-        simp only []
+        have hord : (K.prods ++ (K.pprods.filter (fun sl => sl.res.isSome)).flatMap Slot.nodes) = K.allProds := by
+          simp [hpp, PTask.allProds]
+        rw [hord]
         by_cases hmiss : K.allProds.any (fun p => (lookup (afterBody F s K).w.fs p).isNone) = true
         · simp only [hmiss, if_true]
           rw [reportChain_eval]; rfl
         · simp only [hmiss, Bool.false_eq_true, if_false]
+          rw [hcp (afterBody F s K) hf2 rfl, hf2]
+          simp only [hmiss, Bool.false_eq_true, if_false]
           rw [reportChain_eval]
           simp only [hisgen _ hf2, Bool.false_eq_true, if_false]
           rfl
